@@ -443,6 +443,101 @@ def g_piston():
     return {'Piston': (text, js)}
 
 
+@group('residuals')
+def g_residuals():
+    """black-box Noh residual functions: for each of the four classes the components of F, the entries of F_prime, and for the 2x2
+    classes the hand-coded determinant and the adjugate entries of F_prime_inv (scaled by 1/det in the code).  Calls of the EOS
+    object, self.equation_of_state.<m>(rho, P) or (rho, e), become the free variables eos_<m>; any other call shape stops the
+    translation.  try/except unpacking, zero checks and numpy.linalg are outside the subset."""
+    import copy
+    from py2coq import Interp, free_vars
+    mod = Module(os.path.join(S, 'nohblackboxeos/solution_tools/residual_functions.py'))
+    text = HEADER % 'exactpack/solvers/nohblackboxeos/solution_tools/residual_functions.py'
+    js = {}
+    SELFV = ['u_0', 'rho_0', 'P_0', 'symmetry', 'e_0']
+
+    class EosCalls(ast.NodeTransformer):
+        def __init__(self, second):
+            self.second = second
+        def visit_Call(self, n):
+            f = n.func
+            if isinstance(f, ast.Attribute) and isinstance(f.value, ast.Attribute) and isinstance(f.value.value, ast.Name) \
+                    and f.value.value.id == 'self' and f.value.attr == 'equation_of_state':
+                ok = len(n.args) == 2 and all(isinstance(a, ast.Name) for a in n.args) and n.args[0].id == 'rho' and n.args[1].id == self.second and not n.keywords
+                if not ok:
+                    raise Unsupported('residuals: EOS method %s is not called on (rho, %s) at line %d' % (f.attr, self.second, n.lineno))
+                return ast.copy_location(ast.Name(id='eos_' + f.attr, ctx=ast.Load()), n)
+            return self.generic_visit(n)
+
+    def emit(nm, e, comment):
+        nonlocal text
+        args = sorted(free_vars(e), key=lambda v: (not v.startswith('eos_'), v))
+        order = [a for a in ['rho', 'P', 'e', 'D'] + SELFV if a in args] + [a for a in args if a.startswith('eos_')]
+        text += '\n' + emit_function(nm, order, e, comment=comment)
+        text += '#[global] Hint Unfold %s : epgen.\n' % nm
+        js[nm] = {'args': order, 'expr': expr_to_json(e)}
+
+    for cname, tag, second, dim in (('energy_noh_residual', 'en3', 'P', 3), ('simplified_energy_noh_residual', 'en2', 'P', 2),
+                                    ('pressure_noh_residual', 'pr3', 'e', 3), ('simplified_pressure_noh_residual', 'pr2', 'e', 2)):
+        cn = mod.classes[cname]
+        meth = {st.name: st for st in cn.body if isinstance(st, ast.FunctionDef)}
+        selfo = Obj('', {a: ('var', a) for a in SELFV}, frozen=True, name='self')
+        env0 = {'self': selfo, 'rho': ('var', 'rho'), second: ('var', second), 'D': ('var', 'D')}
+
+        def entries(fn, arr):
+            out = {}
+            interp = Interp(mod, {})
+            env = dict(env0)
+            for st in ast.walk(meth[fn]):
+                if isinstance(st, ast.Assign) and len(st.targets) == 1 and isinstance(st.targets[0], ast.Subscript):
+                    tg = st.targets[0]
+                    if isinstance(tg.value, ast.Attribute) and isinstance(tg.value.value, ast.Name) and tg.value.value.id == 'self' and tg.value.attr == arr:
+                        idx = tg.slice
+                        key = tuple(i.value for i in idx.elts) if isinstance(idx, ast.Tuple) else (idx.value,)
+                        val = EosCalls(second).visit(copy.deepcopy(st.value))
+                        env['eos_names'] = None
+                        for nmn in ast.walk(val):
+                            if isinstance(nmn, ast.Name) and nmn.id.startswith('eos_'):
+                                env[nmn.id] = ('var', nmn.id)
+                        if key in out:
+                            raise Unsupported('residuals: %s.%s assigns %s%s twice' % (cname, fn, arr, key))
+                        out[key] = interp.ev(val, env)
+            return out
+        F = entries('F', 'result')
+        DF = entries('F_prime', 'DF')
+        if sorted(F) != [(i,) for i in range(dim)] or sorted(DF) != [(i, j) for i in range(dim) for j in range(dim)]:
+            raise Unsupported('residuals: %s does not assign every component of F / F_prime exactly once' % cname)
+        for (i,), e in sorted(F.items()):
+            emit('res_%s_F%d' % (tag, i), e, '%s.F: result[%d]' % (cname, i))
+        for (i, j), e in sorted(DF.items()):
+            emit('res_%s_DF%d%d' % (tag, i, j), e, '%s.F_prime: DF[%d,%d]' % (cname, i, j))
+        if dim == 2:
+            ADJ = entries('F_prime_inv', 'DF_inv')
+            if sorted(ADJ) != [(i, j) for i in range(2) for j in range(2)]:
+                raise Unsupported('residuals: %s.F_prime_inv does not assign the four entries' % cname)
+            # the scaling statement self.DF_inv = (1/det)*self.DF_inv must be present
+            src = ast.get_source_segment(mod.src, meth['F_prime_inv'])
+            if '(1/det)*self.DF_inv' not in src.replace(' ', '').replace('(1/det)*self.DF_inv', '(1/det)*self.DF_inv'):
+                raise Unsupported('residuals: %s.F_prime_inv no longer scales the adjugate by 1/det' % cname)
+            for (i, j), e in sorted(ADJ.items()):
+                emit('res_%s_ADJ%d%d' % (tag, i, j), e, '%s.F_prime_inv: DF_inv[%d,%d] before the scaling by 1/det' % (cname, i, j))
+            # determinant: the single assignment det_result = ...
+            det = None
+            interp = Interp(mod, {})
+            for st in ast.walk(meth['determinant']):
+                if isinstance(st, ast.Assign) and len(st.targets) == 1 and isinstance(st.targets[0], ast.Name) and st.targets[0].id == 'det_result':
+                    val = EosCalls(second).visit(copy.deepcopy(st.value))
+                    env = dict(env0)
+                    for nmn in ast.walk(val):
+                        if isinstance(nmn, ast.Name) and nmn.id.startswith('eos_'):
+                            env[nmn.id] = ('var', nmn.id)
+                    det = interp.ev(val, env)
+            if det is None:
+                raise Unsupported('residuals: %s.determinant has no det_result assignment' % cname)
+            emit('res_%s_det' % tag, det, '%s.determinant' % cname)
+    return {'Residuals': (text, js)}
+
+
 def methods_group(relpath, outname, specs):
     """specs: list of (coq prefix, class, [self attribute names], [(method, [arg names])])"""
     from gen import translate_method, nan_cond, strip_nan
